@@ -454,12 +454,24 @@ func ruleSupportedRevisions(c *Ctx, rule string) {
 	c.check(got["disabled=false"] == "[0 1]", rule, w.Short(fn)+": enabled -> [ZERO ONE]", posOf(w, fn), got["disabled=false"], "with flow control enabled the function returns "+got["disabled=false"]+", expected [REVISION_ZERO REVISION_ONE]")
 	// the option sets that flag
 	okOpt := false
+	setsFlag := func(f *ssa.Function) {
+		allInstrs(f, func(in ssa.Instruction) {
+			if st, ok := in.(*ssa.Store); ok && isConstBool(st.Val, true) {
+				if fr, _, ok := fieldOfAddr(st.Addr); ok && fr.Field == w.Roles().DisableFlag {
+					okOpt = true
+				}
+			}
+		})
+	}
 	for _, f := range w.Funcs {
 		if topFn(f).Name() == "WithDisableFlowControl" {
-			allInstrs(f, func(in ssa.Instruction) {
-				if st, ok := in.(*ssa.Store); ok && isConstBool(st.Val, true) {
-					if fr, _, ok := fieldOfAddr(st.Addr); ok && fr.Field == w.Roles().DisableFlag {
-						okOpt = true
+			setsFlag(f)
+			// the option's function may be a named function instead of a literal
+			allInstrsLocal(f, func(in ssa.Instruction) {
+				var ops []*ssa.Value
+				for _, op := range in.Operands(ops) {
+					if g := funcValueTarget(*op); g != nil && g != f && w.inRoot(g) && g.Blocks != nil {
+						setsFlag(g)
 					}
 				}
 			})
